@@ -24,9 +24,10 @@ def main():
     ap.add_argument("--tier", default="quick")
     ap.add_argument("--scale", default=None)
     ap.add_argument("--seed", default=None)
+    ap.add_argument("--out", default="RESULTS.json")
     args = ap.parse_args()
     dirs = sorted(glob.glob(os.path.join(VERIF, "seeded", "*", "patch.diff")))
-    res_path = os.path.join(VERIF, "seeded", "RESULTS.json")
+    res_path = os.path.join(VERIF, "seeded", args.out)
     results = json.load(open(res_path)) if os.path.exists(res_path) else {}
     for pd in dirs:
         d = os.path.dirname(pd)
